@@ -144,6 +144,19 @@ pub fn g_mem_only(a: u32, b: String) -> u64 { body2(a, b) }
 #[cache_async(max_memory = "1MB", policy = "lru")]
 pub async fn a_mem_only(a: u32, b: String) -> u64 { body2(a, b) }
 
+// ---- TLRU without a ttl but with a frequency_weight; tag / event / dependency names with upper case and spaces (matched verbatim)
+#[cache(limit = 4, policy = "tlru", frequency_weight = 3.0)]
+pub fn g_tlru_nottl(a: u32, b: String) -> u64 { body2(a, b) }
+
+#[cache_async(limit = 4, policy = "tlru", frequency_weight = 3.0)]
+pub async fn a_tlru_nottl(a: u32, b: String) -> u64 { body2(a, b) }
+
+#[cache(limit = 8, name = "G_CaseName", tags = ["UserData", " padded "], events = ["Evt_X"], dependencies = ["Dep One"])]
+pub fn g_tag_case(a: u32, b: String) -> u64 { body2(a, b) }
+
+#[cache_async(limit = 8, name = "A_CaseName", tags = ["UserData"], events = ["Evt_X"], dependencies = ["G_CaseName"])]
+pub async fn a_tag_case(a: u32, b: String) -> u64 { body2(a, b) }
+
 // ---- max_memory spellings: GB suffix, plain byte count
 #[cache(limit = 4, max_memory = "1GB")]
 pub fn g_mem_gb(a: u32, b: String) -> u64 { body2(a, b) }
